@@ -1710,10 +1710,24 @@ class Engine:
             for (s, _) in normal:
                 bags += s.bags[nbags:]
             # heap effects inside generators are not supported when inlined
+            from .schema import REGION_KEYS
+            changed = set()
             for (s, _) in normal:
                 for key, arr in s.heap.items():
                     if key in st.heap and not z3.eq(arr, st.heap[key]):
-                        raise Unsupported("inlined generator %s has heap effects" % fi.qual)
+                        changed.add(key.split("#")[0])
+            if changed:
+                # effects confined to the lazily maintained index region R are benign (the region-aware loop rule has
+                # already replaced R by arbitrary arrays satisfying the region invariant): adopt them
+                region_ok = (changed <= set(REGION_KEYS) and len(normal) == 1
+                             and getattr(self.cur_contract, "region_invariant", None) is not None)
+                if not region_ok:
+                    raise Unsupported("inlined generator %s has heap effects" % fi.qual)
+                s1 = normal[0][0]
+                st.pc = s1.pc
+                st.nondec = s1.nondec
+                st.heap = s1.heap
+                st.trace = s1.trace
             # binders of the caller context are already included via st.binders (fork)
             # strip the caller's binder prefix: bags are values, caller binders stay free
             res = []
